@@ -43,6 +43,9 @@ class Check:
         self.notes = {}
         self._distinct = set()
         self._extra_distinct = 0
+        self.rule = ('cases are the states / behaviours TLC enumerates from the property\'s MC_*.tla configurations plus seeded '
+                     'random cases recorded from the implementation; distinct = distinct TLC states x pool entries or distinct '
+                     'recorded events; non-trivial = the predicted/observed answer is non-empty')
         self.known = load_known(pid)
         self.machinery_errors = []
 
@@ -89,6 +92,7 @@ class Check:
         wall = time.time() - self.t0
         cov = self.coverage
         cov['distinct_nontrivial'] = len(self._distinct) + self._extra_distinct
+        cov.setdefault('rule', self.rule)
         if self.drift:
             cov['drift'] = self.drift[:20]
             cov['drift_count'] = len(self.drift)
